@@ -7,7 +7,7 @@ namespace Pangaea.WriteSites
 def reviewed : List (String × String) := [
   ("di/container.go:injectProps: obj.AddPairs(pairs)", "start-up injection of built-in props, before any user code runs"),
   ("di/eval.go:eval: e.StackTrace =", "stack trace of an error being raised (errors in flight; see C19 for the shared `_` object)"),
-  ("evaluator/err.go:appendStackTrace: e.StackTrace =", "stack trace of an error being raised"),
+  ("evaluator/err.go:appendStackTrace: copied.StackTrace =", "field of a local copy of the error; the error it was given is never written (fix 180973c)"),
   ("evaluator/eval_args.go:evalArgs: unpackedKwargs.AddPairs(kwargs)", "unpackedKwargs is a fresh local object"),
   ("evaluator/eval_obj.go:evalObj: pair.Key =", "field of a local Pair struct (a copy)"),
   ("evaluator/eval_propcall.go:evalCallArgs: kwargs.AddPairs(unpackedKwargs)", "kwargs was freshly made by evalKwargs"),
